@@ -108,8 +108,10 @@ def writer_fn(t, w, idx, base, world, sch=None):
             try:
                 t.append_records([{"k": 700 + idx, "s": f"lf{idx}"}])
                 return "committed"
-            except OSError:
-                return "failed-late"
+            except Exception as e:  # noqa
+                if isinstance(e, OSError) or type(e).__name__ in ("AmbiguousCommitError", "ReadTimeoutError", "ConcurrentModificationException"):
+                    return "failed-late"
+                raise
 
         return f
     if kind == "failing":
@@ -200,14 +202,14 @@ def run_case(case):
             for wi, wsp in enumerate(sc["writers"]):
                 if wsp["op"] == "failing" and w.kind != "local":
                     wsp = dict(wsp, op="rollback")
-                if wsp["op"] == "late_fault" and w.kind != "local":
-                    wsp = dict(wsp, op="append")
+                # (on object storage the late fault is a transport error AFTER the pointer PUT landed: see on_event)
                 actors.append((f"w{wi}", writer_fn(tabs[len(sc["readers"]) + wi], wsp, wi, base, w, sch)))
             return actors
 
         late = {len(sc["readers"]) + wi: {"j": wsp.get("j", 1), "flipped": False, "n": 0, "done": False}
                 for wi, wsp in enumerate(sc["writers"]) if wsp["op"] == "late_fault" and world.kind == "local"}
 
+        late_s3 = {len(sc["readers"]) + wi: {"fired": False} for wi, wsp in enumerate(sc["writers"]) if wsp["op"] == "late_fault" and world.kind != "local"}
         collecting = any(wsp["op"] == "replace_gc" for wsp in sc["writers"])
         views_at_flip = {}
 
@@ -220,6 +222,14 @@ def run_case(case):
                         views_at_flip[content] = read_view(world.fs(), metadata_file=content)
                 except Exception:
                     pass
+            s3t = late_s3.get(a.idx)
+            if s3t is not None and not s3t["fired"] and phase == "after" and label.startswith("s3:put") and target == HINT:
+                # the pointer PUT has landed; its response is lost (client-side read timeout, retryable as far as the transport layer knows)
+                from botocore.exceptions import ReadTimeoutError
+
+                s3t["fired"] = True
+                out["labels"].append("late-fault-fired")
+                raise ReadTimeoutError(endpoint_url="http://fake-s3")
             stt = late.get(a.idx)
             if stt is None or stt["done"]:
                 return
@@ -235,7 +245,7 @@ def run_case(case):
                     if not label.endswith("os.close"):
                         raise OSError(5, "injected I/O error after the pointer rename")
 
-        run = run_scheduled(world, make_actors, case["schedule"], seed=case.get("seed", 0), on_event=on_event if (late or collecting) else None)
+        run = run_scheduled(world, make_actors, case["schedule"], seed=case.get("seed", 0), on_event=on_event if (late or collecting or late_s3) else None)
         out["labels"] += [f"world:{sc['world']}", f"topo:{sc['topology']}"] + (["empty-base"] if sc["nprior"] == 0 else [])
         if run.error is not None:
             out["violations"].append((f"scheduler/{type(run.error).__name__}", str(run.error)[:200]))
@@ -320,6 +330,7 @@ FIXED = [
     {"world": "local", "topology": "separate", "nprior": 3, "readers": [[read_spec(api="scan"), read_spec(api="batches1")]], "writers": [{"op": "replace_gc", "which": 1}]},
     {"world": "local", "topology": "separate", "nprior": 0, "multi_base": True, "readers": [[read_spec(api="scan"), read_spec(api="row_count")]],
      "writers": [{"op": "delete", "which": 1}, {"op": "delete", "which": 0}]},
+    {"world": "s3cas", "topology": "separate", "nprior": 1, "readers": [[read_spec(api="scan"), read_spec(api="row_count"), read_spec(api="scan")]], "writers": [{"op": "late_fault", "j": 1}]},
     {"world": "local", "topology": "rw0", "all_orders": True, "nprior": 1, "readers": [[read_spec(api="scan"), read_spec(api="row_count")]], "writers": [{"op": "failing"}, {"op": "append"}]},
 ]
 # two readers on ONE shared handle (threads sharing a Table) + a writer: anything a read leaves on the handle must not leak into the other reader
